@@ -16,7 +16,8 @@ RULE = ('cells = (dim, wavelet, mode, J, spatial shape) drawn from all 106 pywt 
         'modes x hostile sizes (2..20, around powers of two, around the filter length, odd, '
         'non-square); per cell one impulse-batch execution (whole operator) and dense / '
         'dynamic-range / structured inputs; a case is distinct by (cell, input kind) and '
-        'non-trivial when the input is not all-zero and the reference returned')
+        'non-trivial when the input is not all-zero and the reference returned'
+        '; wave argument given as name / pywt.Wavelet object / pair of lists / pair of arrays / 4-tuple; user-defined 2/4/6-tap banks (rotation, lazy, random) against pywt with a custom Wavelet; batch and channel counts incl. 4 and 16..65; one module call in three made inside torch.no_grad() / set_grad_enabled(False); reload histories')
 ASSUMPTIONS = ['PyWavelets 1.10 wavedec/wavedec2 is the specification',
                'float64 run; tolerance 1e-11 * (filter l1 gain)^(J*dim) * max|x|',
                'sizes bounded (1-D <= 130, 2-D sides <= 33), J <= 4']
